@@ -122,7 +122,13 @@ func init() {
 	}
 	intrinsics["(*archive/tar.Reader).Next"] = func(e *Engine, fn *ssa.Function, a []value) (value, bool) {
 		o := e.tarObj(a[0])
-		e.yield()
+		if e.params["tar_next_sched"] != 0 {
+			// the stream may stall before every header: a harness-level scheduling point that the native
+			// stream reproduces when the header block is requested
+			e.schedPoint("tar.next")
+		} else {
+			e.yield()
+		}
 		nilHdr := (*value)(nil)
 		// skip the rest of the current entry
 		if o.cur >= 0 {
